@@ -49,13 +49,19 @@ def strategy_(draw, tier):
     types = list(BT)
     members = [("m%d" % i, S._pick(draw, types)) for i in range(n)]
     access = S._pick(draw, ["direct", "pointer", "pointer", "reference"])
-    change = S._pick(draw, ["insert", "insert", "insert", "remove", "shrink", "retype"])
+    change = S._pick(draw, ["insert", "insert", "insert2", "insert2", "remove", "shrink", "retype"])
     new = list(members)
     info = {"change": change}
     if change == "insert":
         pos = draw(st.integers(0, n))
         new.insert(pos, ("ins", S._pick(draw, types)))
         info["pos"] = pos
+    elif change == "insert2":
+        # two members inserted at different places: one may satisfy an insertion constraint while the other violates it
+        p1 = draw(st.integers(0, n))
+        new.insert(p1, ("ins", S._pick(draw, types)))
+        p2 = draw(st.integers(0, n + 1))
+        new.insert(p2, ("ins2", S._pick(draw, types)))
     elif change == "remove":
         pos = draw(st.integers(0, n - 1))
         del new[pos]
@@ -206,8 +212,9 @@ def run_case(case, cx):
                 known = ACCESS_DIRECT
     elif treat == "range":
         which = ["at", "between", "betweens"][r[0] % 3]
-        ins = next((off for n, off, sz in ln_ if n == "ins"), None)
+        inss = [off for n, off, sz in ln_ if n in ("ins", "ins2")]
         b1_, b2_ = boundary(r[1], old), boundary(r[2], old)
+        inside_all = True
         if which == "at":
             # The manual says "inserted at an offset specified by the property value"; the implementation and the
             # suite's test11-add-data-member-2 read `= N` as "at N or anywhere after it".  Only an insertion strictly
@@ -216,24 +223,25 @@ def run_case(case, cx):
             c1 = candidates(b1_, old, new, False)
             if not c1:
                 return
-            inside = ins is not None and not ins < min(c1)
+            inside_all = all(not ins < min(c1) for ins in inss)
         else:
             c1, c2 = candidates(b1_, old, new, False), candidates(b2_, old, new, True)
             if not c1 or not c2:
                 return
             if which == "between":
                 props.append(("has_data_member_inserted_between", "{%s, %s}" % (fmt(b1_), fmt(b2_))))
-                inside = ins is not None and not (ins < min(c1) or ins > max(c2))
+                inside_all = all(not (ins < min(c1) or ins > max(c2)) for ins in inss)
             else:
                 b3, b4 = boundary(r[3], old), boundary(r[4], old)
                 c3, c4 = candidates(b3, old, new, False), candidates(b4, old, new, True)
                 if not c3 or not c4:
                     return
                 props.append(("has_data_members_inserted_between", "{{%s, %s}, {%s, %s}}" % (fmt(b1_), fmt(b2_), fmt(b3), fmt(b4))))
-                inside = ins is not None and (not (ins < min(c1) or ins > max(c2)) or not (ins < min(c3) or ins > max(c4)))
-        if change == "insert":
-            expect_visible = not inside
-            cx.cls("insertion-%s-range" % ("outside" if not inside else "maybe-inside"))
+                inside_all = all((not (ins < min(c1) or ins > max(c2)) or not (ins < min(c3) or ins > max(c4))) for ins in inss)
+        if change in ("insert", "insert2"):
+            # visible is asserted as soon as ONE inserted member lies outside every range under every reading
+            expect_visible = not inside_all
+            cx.cls("%s-%s-range" % (change, "some-member-outside" if not inside_all else "all-maybe-inside"))
         elif change in ("remove", "shrink"):
             expect_visible = True
         else:
